@@ -422,10 +422,15 @@ func ruleUpsidedownWriters(r *Report) {
 		}
 		return false
 	}
-	nilOf := func(info *types.Info, facts []Fact, name string, wantNil bool) bool {
+	// nil facts are matched by the ROLE of the tested value (its named type), not by its name:
+	// "backIndexRow" = a *BackIndexRow, "doc" = the Document of a batch operation
+	nilOf := func(info *types.Info, facts []Fact, role string, wantNil bool) bool {
+		typeName := map[string]string{"backIndexRow": "BackIndexRow", "doc": "Document"}[role]
 		for _, f := range facts {
-			if x, isNil, ok := errNilFact(info, f); ok && isNil == wantNil && (x == name || strings.HasSuffix(x, "."+name)) {
-				return true
+			if _, isNil, ok := errNilFact(info, f); ok && isNil == wantNil {
+				if nt := namedOf(info.TypeOf(nilTestOperand(info, f.Expr))); nt != nil && nt.Obj().Name() == typeName {
+					return true
+				}
 			}
 		}
 		return false
@@ -436,17 +441,36 @@ func ruleUpsidedownWriters(r *Report) {
 	checkCount(ud+".(*UpsideDownCouch).Delete", isDocCountIncDec(token.DEC), func(info *types.Info, facts []Fact) (bool, string) {
 		return errNil(info, facts) && nilOf(info, facts, "backIndexRow", false), "docCount-- only when the write succeeded and the document existed (backIndexRow != nil)"
 	})
-	isLocalInc := func(name string) func(info *types.Info, n ast.Node) (string, bool) {
+	batch := ud + ".(*UpsideDownCouch).Batch"
+	// the two local counters by role: the variable added to / subtracted from udc.docCount
+	counters := map[string]types.Object{}
+	{
+		bfi := p.MustFunc(batch)
+		binfo := bfi.Pkg.TypesInfo
+		ast.Inspect(bfi.Decl.Body, func(n ast.Node) bool {
+			if as, ok := n.(*ast.AssignStmt); ok && len(as.Lhs) == 1 && len(as.Rhs) == 1 && isField(binfo, as.Lhs[0], "UpsideDownCouch", "docCount") {
+				if o := objOf(binfo, as.Rhs[0]); o != nil {
+					switch as.Tok {
+					case token.ADD_ASSIGN:
+						counters["docsAdded"] = o
+					case token.SUB_ASSIGN:
+						counters["docsDeleted"] = o
+					}
+				}
+			}
+			return true
+		})
+	}
+	isLocalInc := func(role string) func(info *types.Info, n ast.Node) (string, bool) {
 		return func(info *types.Info, n ast.Node) (string, bool) {
 			if s, ok := n.(*ast.IncDecStmt); ok && s.Tok == token.INC {
-				if id, ok := s.X.(*ast.Ident); ok && id.Name == name {
-					return name + "++", true
+				if o := objOf(info, s.X); o != nil && o == counters[role] {
+					return role + "++", true
 				}
 			}
 			return "", false
 		}
 	}
-	batch := ud + ".(*UpsideDownCouch).Batch"
 	checkCount(batch, isLocalInc("docsAdded"), func(info *types.Info, facts []Fact) (bool, string) {
 		return nilOf(info, facts, "backIndexRow", true) && nilOf(info, facts, "doc", false), "docsAdded++ only for an update op (doc != nil) of an id with no back-index row"
 	})
@@ -455,12 +479,12 @@ func ruleUpsidedownWriters(r *Report) {
 	})
 	checkCount(batch, func(info *types.Info, n ast.Node) (string, bool) {
 		if as, ok := n.(*ast.AssignStmt); ok && len(as.Lhs) == 1 && isField(info, as.Lhs[0], "UpsideDownCouch", "docCount") {
-			if id, ok := as.Rhs[0].(*ast.Ident); ok {
+			if _, ok := as.Rhs[0].(*ast.Ident); ok {
 				want := map[token.Token]string{token.ADD_ASSIGN: "docsAdded", token.SUB_ASSIGN: "docsDeleted"}
-				if want[as.Tok] == id.Name {
-					return "docCount" + as.Tok.String() + id.Name, true
+				if role := want[as.Tok]; role != "" {
+					return "docCount" + as.Tok.String() + role, true
 				}
-				return "docCount" + as.Tok.String() + id.Name + "(MISMATCH)", true
+				return "docCount" + as.Tok.String() + "(UNEXPECTED-OPERATOR)", true
 			}
 		}
 		return "", false
@@ -474,13 +498,13 @@ func ruleUpsidedownWriters(r *Report) {
 		have := map[string]bool{}
 		ast.Inspect(fi.Decl.Body, func(n ast.Node) bool {
 			if as, ok := n.(*ast.AssignStmt); ok && len(as.Lhs) == 1 && isField(info, as.Lhs[0], "UpsideDownCouch", "docCount") {
-				if id, ok := as.Rhs[0].(*ast.Ident); ok {
-					have[as.Tok.String()+id.Name] = true
+				if _, ok := as.Rhs[0].(*ast.Ident); ok {
+					have[as.Tok.String()] = true
 				}
 			}
 			return true
 		})
-		r.Ob(countRule, fi.Name+"/adds-added-subtracts-deleted", fi.Decl.Pos(), have["+=docsAdded"] && have["-=docsDeleted"] && len(have) == 2, fmt.Sprintf("docCount += docsAdded and -= docsDeleted, found %v", keysSorted(have)))
+		r.Ob(countRule, fi.Name+"/adds-added-subtracts-deleted", fi.Decl.Pos(), have["+="] && have["-="] && len(have) == 2 && counters["docsAdded"] != nil && counters["docsDeleted"] != nil && counters["docsAdded"] != counters["docsDeleted"], fmt.Sprintf("docCount is adjusted by `+= <added counter>` and `-= <deleted counter>` with two different local counters (which counter is which is decided by the guards of their ++ sites, checked above), found operators %v", keysSorted(have)))
 	}
 }
 
